@@ -34,6 +34,9 @@ import (
 	"github.com/dadrus/heimdall/internal/x/errorchain"
 )
 
+// errUnusableRuleSet marks errors, which are specific to the contents of a single blob.
+var errUnusableRuleSet = errors.New("unusable rule set")
+
 type ruleSetEndpoint struct {
 	URL    *url.URL `mapstructure:"url"`
 	Prefix string   `mapstructure:"prefix"`
@@ -59,8 +62,14 @@ func (e *ruleSetEndpoint) FetchRuleSets(ctx context.Context) ([]*config.RuleSet,
 	return e.readAllBlobs(ctx, bucket)
 }
 
+// readAllBlobs returns the rule sets from all blobs. A blob with unusable contents does not prevent the other
+// blobs from being read. It is represented by a rule set without rules and hash (so that it is not considered
+// as removed), and the corresponding error is returned in addition to the result.
 func (e *ruleSetEndpoint) readAllBlobs(ctx context.Context, bucket *blob.Bucket) ([]*config.RuleSet, error) {
-	var ruleSets []*config.RuleSet
+	var (
+		ruleSets []*config.RuleSet
+		failures []error
+	)
 
 	it := bucket.List(&blob.ListOptions{Prefix: e.Prefix})
 
@@ -80,13 +89,20 @@ func (e *ruleSetEndpoint) readAllBlobs(ctx context.Context, bucket *blob.Bucket)
 				continue
 			}
 
-			return nil, err
+			if !errors.Is(err, errUnusableRuleSet) {
+				return nil, err
+			}
+
+			failures = append(failures, err)
+			ruleSets = append(ruleSets, &config.RuleSet{MetaData: config.MetaData{Source: e.sourceID(obj.Key)}})
+
+			continue
 		}
 
 		ruleSets = append(ruleSets, ruleSet)
 	}
 
-	return ruleSets, nil
+	return ruleSets, errors.Join(failures...)
 }
 
 func (e *ruleSetEndpoint) readSingleBlob(ctx context.Context, bucket *blob.Bucket) ([]*config.RuleSet, error) {
@@ -94,6 +110,11 @@ func (e *ruleSetEndpoint) readSingleBlob(ctx context.Context, bucket *blob.Bucke
 	if err != nil {
 		if errors.Is(err, config.ErrEmptyRuleSet) {
 			return []*config.RuleSet{}, nil
+		}
+
+		if gcerrors.Code(err) == gcerrors.NotFound {
+			// the blob is gone. So there are no rule sets (any more), which is reported along with the error
+			return []*config.RuleSet{}, err
 		}
 
 		return nil, err
@@ -121,15 +142,18 @@ func (e *ruleSetEndpoint) readRuleSet(ctx context.Context, bucket *blob.Bucket, 
 	if err != nil {
 		return nil, errorchain.
 			NewWithMessage(heimdall.ErrInternal, "failed to decode received rule set").
+			CausedBy(errUnusableRuleSet).
 			CausedBy(err)
 	}
 
 	contents.Hash = attrs.MD5
-	contents.Source = fmt.Sprintf("%s@%s", key, e.ID())
+	contents.Source = e.sourceID(key)
 	contents.ModTime = attrs.ModTime
 
 	return contents, nil
 }
+
+func (e *ruleSetEndpoint) sourceID(key string) string { return fmt.Sprintf("%s@%s", key, e.ID()) }
 
 func mapError(err error, message string) error {
 	// unfortunately some cloud provider SDKs don't implement error Is and/or As functions,
